@@ -1,0 +1,18 @@
+//go:build verif
+
+package term
+
+// Hooks for the DCS (sixel) branch of update(): add-only, no behaviour change.
+
+// VerifGraphicsLen is the number of decoded sixel images the model holds.
+func (vt *Model) VerifGraphicsLen() int {
+	vt.mu.Lock()
+	defer vt.mu.Unlock()
+	return len(vt.graphics)
+}
+
+// VerifSixelTooLarge exposes the size guard of the DCS branch.
+func VerifSixelTooLarge(data []rune) bool { return sixelTooLarge(data) }
+
+// VerifMaxSixelSize exposes the constant of the guard.
+const VerifMaxSixelSize = maxSixelSize
